@@ -14,7 +14,7 @@ use mcutil::{machinery_error, Args};
 fn main() {
     let args = Args::parse();
     mcutil::silence_panics();
-    let code = match args.property.as_str() {
+    mcutil::guarded_main(|| match args.property.as_str() {
         "C11" => svc::run_c11(&args),
         "C12" => svc::run_c12(&args),
         "C13" => c13::run(&args),
@@ -24,6 +24,5 @@ fn main() {
         "C17" => c17::run(&args),
         "C20" => c20::run(&args),
         other => machinery_error(&format!("libmc does not serve {other}")),
-    };
-    std::process::exit(code);
+    });
 }
